@@ -36,6 +36,10 @@ CLAIMED = {
             "The program of numpy operations is the solver variable: for every program of 3 (quick: 3-4, thorough: up to 6) steps over hash reads, 11 alias-creating operations and 36 write routes on up to three aliasing objects, z3 either proves no stale memoised hash is reachable or returns the route, "
             "which is executed on a real TrackedArray and compared with hash_fast(tobytes()). Routes that are genuine today are listed in known_findings.json by route class; any other route (a dropped dirty flag, an un-overridden method, a weakened __array_finalize__) is a violation.",
             "Trusted base: z3; the measured environment table (effect of each numpy operation on bytes / dirty flags / aliasing is data independent) - validated because every reported trace is replayed and spurious ones refine the table; full-coverage views only (partial views a[1:3] need index tracking), one write per program, dtypes float64/int64/uint8 of shape (4,3)."),
+    "C11": ("other", "DESIGN.md#c11", "symbolic execution of intersections.mesh_plane / slice_faces_plane on a real Trimesh with z3-real coordinates; every vertex sign class forks; z3 nlsat decides per path; counterexample replay",
+            "Union of fully symbolic sub-spaces: (A) EVERY triangle |x|<=1000 x each axis plane x every offset - all sign patterns incl. vertices exactly on the plane and edges in it - the returned segment equals the exact intersection of plane and triangle, a segment exists iff the plane separates the vertices, "
+            "and the vector areas of the two opposite slices add up to the original with every piece on its side; (B) catalogue triangles x oblique rational unit normals x every offset; (C) catalogue tetrahedra x normals x every offset: the section is one closed loop.",
+            TRUSTED + "unit plane normals; slices: vertices exactly on the plane or >= 1e-6 away; caps, cap volumes, watertightness of capped halves (shapely/earcut), mesh_multiplane and Trimesh.section path assembly (SVD, vertex merging) not claimed."),
 }
 
 NOT_APPLICABLE = {
